@@ -380,5 +380,8 @@ pub fn run(ctx: &mut Ctx) -> Result<(), String> {
         let triples = if n > 100 { 12 } else if ctx.quick() { 40 } else { 120 };
         rt.block_on(tokio::task::unconstrained(one_config(ctx, &mut rng, &ep, proto, triples)));
     }
+    drop(rt);
+    // the forwarding decision itself is taken in the node's message loop: whole nodes, fault-free runs
+    crate::props::cluster_props::run_c16_nodes(ctx, 16, 400);
     Ok(())
 }
